@@ -25,6 +25,16 @@ def sh(cmd, **kw):
     return subprocess.run(cmd, stdout=subprocess.PIPE, stderr=subprocess.STDOUT, text=True, **kw)
 
 
+def result_path(d):
+    """results of candidates that are still in a red-team directory are kept out of that directory (the authors must not see them)"""
+    d = os.path.abspath(d)
+    if d.startswith('/tmp/rt'):
+        side = os.path.join('/tmp/rtres', d.strip('/').replace('/', '_'))
+        os.makedirs(side, exist_ok=True)
+        return os.path.join(side, 'result.json')
+    return os.path.join(d, 'result.json')
+
+
 def confirm_one(d):
     d = os.path.abspath(d)
     wt = tempfile.mkdtemp(prefix='seedchk_', dir='/tmp')
@@ -57,7 +67,9 @@ def confirm_one(d):
     finally:
         sh(['git', '-C', REPO, 'worktree', 'remove', '--force', wt])
         shutil.rmtree(wt, ignore_errors=True)
-    with open(os.path.join(d, 'confirm.json'), 'w') as fh:
+    cp = os.path.join(os.path.dirname(result_path(d)), 'confirm.json') if d.startswith('/tmp/rt') else os.path.join(d, 'confirm.json')
+    res['patch_sha'] = __import__('hashlib').sha256(open(os.path.join(d, 'patch.diff'), 'rb').read()).hexdigest()
+    with open(cp, 'w') as fh:
         json.dump(res, fh, indent=1)
     return res
 
@@ -92,7 +104,7 @@ def run_one(d, props):
         shutil.rmtree(wt, ignore_errors=True)
         shutil.rmtree(scratch, ignore_errors=True)
     prev = {}
-    rp = os.path.join(d, 'result.json')
+    rp = result_path(d)
     if os.path.exists(rp):
         prev = json.load(open(rp)).get('checks', {})
     prev.update(out['checks'])
@@ -122,20 +134,30 @@ def adopt(dirs):
     """copy confirmed candidates into /verif/seeded/<property>/<k>/"""
     for d in dirs:
         d = os.path.abspath(d)
-        cf = os.path.join(d, 'confirm.json')
+        side = os.path.dirname(result_path(d))
+        cf = os.path.join(side, 'confirm.json') if os.path.exists(os.path.join(side, 'confirm.json')) else os.path.join(d, 'confirm.json')
         if not os.path.exists(cf):
             print('skip (not confirmed yet):', d)
             continue
         c = json.load(open(cf))
+        sha = __import__('hashlib').sha256(open(os.path.join(d, 'patch.diff'), 'rb').read()).hexdigest()
+        if c.get('patch_sha') and c['patch_sha'] != sha:
+            print('skip (patch changed after confirmation):', d)
+            continue
         if not (c.get('applies') and c.get('demo_differs') and c.get('tests_pass') and not c.get('touches_tests')):
             print('REJECTED', d, {k: c.get(k) for k in ('applies', 'demo_differs', 'tests_pass', 'touches_tests', 'error')})
             continue
         meta = json.load(open(os.path.join(d, 'meta.json')))
         dest = os.path.join(VERIF, 'seeded', meta['property'], ('r2-' if '/rt2/' in d else '') + os.path.basename(d))
         os.makedirs(dest, exist_ok=True)
-        for f in ('patch.diff', 'demo.py', 'demo_before.txt', 'demo_after.txt', 'meta.json', 'confirm.json', 'result.json'):
+        for f in ('patch.diff', 'demo.py', 'demo_before.txt', 'demo_after.txt', 'meta.json'):
             if os.path.exists(os.path.join(d, f)):
                 shutil.copy(os.path.join(d, f), os.path.join(dest, f))
+        shutil.copy(cf, os.path.join(dest, 'confirm.json'))
+        if os.path.exists(result_path(d)):
+            shutil.copy(result_path(d), os.path.join(dest, 'result.json'))
+        elif os.path.exists(os.path.join(d, 'result.json')):
+            shutil.copy(os.path.join(d, 'result.json'), os.path.join(dest, 'result.json'))
         print('adopted', dest)
 
 
